@@ -5,7 +5,7 @@ import re, json, os
 DIRECTIVES = {
     'unit', 'serves', 'module', 'features', 'prelude', 'specs', 'flags', 'assumptions', 'item',
     'pre_attrs', 'requires', 'ensures', 'decreases', 'keep_fields', 'derives', 'loop', 'closure',
-    'params', 'cret', 'crequires', 'censures', 'adapter', 'insert', 'nosentinel', 'note', 'carve',
+    'params', 'cret', 'crequires', 'censures', 'adapter', 'bind', 'insert', 'wrap', 'carries', 'nosentinel', 'note', 'carve',
 }
 
 _dir_re = re.compile(r'^\s*@([a-z_]+)\b(.*)$')
@@ -81,7 +81,7 @@ def parse(path):
             u.carves.append((arg + ' ' + text).strip())
         elif d == 'item':
             parts = arg.split()
-            item = {'path': parts[0], 'inserts': [], 'loops': {}, 'closures': {}}
+            item = {'path': parts[0], 'inserts': [], 'loops': {}, 'closures': {}, 'wraps': []}
             for kv in parts[1:]:
                 k, v = kv.split('=', 1)
                 if k == 'for_to_loop' and v != 'all':
@@ -99,6 +99,8 @@ def parse(path):
             item[d] = text
         elif d == 'nosentinel':
             item['nosentinel'] = (arg + ' ' + text).strip() or 'yes'
+        elif d == 'carries':
+            item['carries'] = arg.split()
         elif d == 'keep_fields':
             item['keep_fields'] = (arg + ' ' + text).split()
         elif d == 'derives':
@@ -114,10 +116,22 @@ def parse(path):
             clos['ret'] = arg
         elif d == 'adapter':
             clos['adapter'] = arg
+        elif d == 'bind':
+            clos['bind'] = arg
         elif d == 'crequires':
             clos['requires'] = text
         elif d == 'censures':
             clos['ensures'] = text
+        elif d == 'wrap':
+            a = arg.split()
+            first, _, rest = text.partition('\n')
+            m = re.match(r'^\s*`(.*)`\s*$', first)
+            if not m:
+                raise ValueError('%s: @wrap needs a `match` line' % path)
+            w = {'nth': int(a[0]) if a else 0, 'match': m.group(1), 'text': rest}
+            if len(a) > 1:
+                w['name'] = a[1]
+            item['wraps'].append(w)
         elif d == 'insert':
             a = arg.split()
             ins = {'at': a[0]}
@@ -159,17 +173,24 @@ def contract_text(item, sentinel=False):
 
 
 def is_fn_item(item):
-    return any(item.get(k) for k in ('requires', 'ensures', 'decreases', 'ret', 'loops', 'inserts', 'closures')) and not item.get('keep_fields')
+    return any(item.get(k) for k in ('requires', 'ensures', 'decreases', 'ret', 'loops', 'inserts', 'closures', 'wraps')) and not item.get('keep_fields')
 
 
 def job(u, sentinel=False):
     items = []
-    for it in u.items:
+    todo = [(it, False) for it in u.items]
+    if sentinel:
+        # vacuity sentinels: a renamed COPY of every contracted function with `ensures false`
+        # appended (callers keep seeing the real contract of the original)
+        todo += [(it, True) for it in u.items if is_fn_item(it) and not it.get('nosentinel')]
+    for it, sent in todo:
         j = {'path': it['path']}
-        for k in ('as', 'ret', 'for_to_loop', 'impl_trait', 'expect_loops', 'expect_closures', 'keep_fields', 'derives', 'pre_attrs'):
+        if sent:
+            j['as'] = '__sentinel_' + it['path'].split('::')[-1]
+        for k in (() if sent else ('as',)) + ('ret', 'for_to_loop', 'impl_trait', 'bool_or_assign', 'expect_loops', 'expect_closures', 'keep_fields', 'derives', 'pre_attrs'):
             if k in it:
                 j[k] = it[k]
-        c = contract_text(it, sentinel)
+        c = contract_text(it, sent)
         if c:
             j['contract'] = c
         if it['loops']:
@@ -189,10 +210,14 @@ def job(u, sentinel=False):
                     e['ret'] = v['ret']
                 if 'adapter' in v:
                     e['adapter'] = v['adapter']
+                if 'bind' in v:
+                    e['bind'] = v['bind']
                 cl[k] = e
             j['closures'] = cl
         if it['inserts']:
             j['inserts'] = it['inserts']
+        if it.get('wraps'):
+            j['wraps'] = it['wraps']
         items.append(j)
     repo = os.environ.get('VERIF_REPO', '/repo')
     mods = {k: (p if os.path.isabs(p) else os.path.join(repo, p)) for k, p in u.modules.items()}
